@@ -26,7 +26,7 @@ MANIFEST = {
     "note": "Ground acyclic fragment: harness/ground_util.py records the permutation the hook applied to every batch of sibling "
             "clauses (wrapper around engine_stack._verif_shuffle) and hands it to the model. "
             "Trusted: harness, hook in engine_stack.py (add-only, off by default). Known finding F1 (false NegativeCycle, "
-            "schedule dependent) is reported as KNOWN-FINDING. First-order sub-phase (harness/groundfo_util.py): programs with variables against ProbLogModel/GroundFO.lean, exact correspondence under the recorded schedule / history; the semantic statement (CorrectFO) is checked per program by Drivers.GroundFOCheck under the recorded and an arbitrary schedule, proved only structurally (C01GroundFO.*_partial).",
+            "schedule dependent) is reported as KNOWN-FINDING. First-order sub-phase (harness/groundfo_util.py): programs with variables against ProbLogModel/GroundFO.lean, exact correspondence under the recorded schedule / history; the semantic statement (CorrectFO) is checked per program by Drivers.GroundFOCheck under the recorded and an arbitrary schedule, and proved for the model in partial-correctness form (C01GroundFOFull: every schedule and history, against Sem.wfm of the Herbrand instantiation, under the decidable hypotheses SpecOK which the driver decides per program; termination of the model is not proved).",
     "design_ref": "DESIGN.md §6 C03, §7",
 }
 
